@@ -19,7 +19,7 @@ from . import c01_oracle as co
 from . import common, e3
 
 HEADER = ("From Coq Require Import List NArith Bool.\nImport ListNotations.\n"
-          "From SV Require Import model.Engine model.EnginePlan.\nOpen Scope N_scope.\n")
+          "From SV Require Import model.Engine model.EnginePlan model.EnginePlanCheck.\nOpen Scope N_scope.\n")
 
 
 TREE_FILES_MARKED = True
@@ -179,7 +179,7 @@ def _attached(graph_nodes: dict, label: str):
 
 def correspondence_plan(ctx):
     n = ctx.scale(12, 120)
-    checks, meta = [], []
+    checks, meta, fin_terms, fin_meta = [], [], [], []
     for i in range(n):
         rng = random.Random(f"c01-plan-{ctx.seed}-{ctx.tier}-{i}")
         directed = {0: "blocked", 1: "readd", 2: "blocked"}.get(i)
@@ -235,6 +235,24 @@ def correspondence_plan(ctx):
         term = (f"let U := {uni} in wf_u U && ustat_later_b U && "
                 f"check_hist_p {tabt} U (p_empty U) {common.coq_list(phases)} && {scratch}")
         checks.append(term)
+        # is the model's final state FINISHED (hypothesis of C01_plan_checked_history_equals_scratch)?
+        wl = common.coq_list([common.coq_list([f"({a}, {b})" for a, b in ws]) for ws, _ in worlds])
+        fin_terms.append(f"let U := {uni} in final_finished_p {tabt} U {wl}")
+        # same_result_p speaks of the TRUSTED region: attached, every creator above SUCCEEDED
+        def region(nodes_):
+            memo = {}
+
+            def tr(e):
+                if e["label"] not in memo:
+                    a, _ = _attached(nodes_, e["label"])
+                    c = e["cr"]
+                    memo[e["label"]] = a and (c is None or (tr(c) and _attached(nodes_, c["label"])[1] == "SUCCEEDED"))
+                return memo[e["label"]]
+            t = {e["label"] for e in ents if tr(e)}
+            return t, {l for l in t if _attached(nodes_, l)[1] == "SUCCEEDED"}
+        rt_inc, rs_inc = region(e3.parse_graph(results[-1].graph))
+        rt_scr, rs_scr = region(snodes)
+        fin_meta.append((rt_inc == rt_scr and rs_inc == rs_scr, [sorted(rt_inc ^ rt_scr), sorted(rs_inc ^ rs_scr)]))
         meta.append((project, history, term))
         ctx.case(("engine-plan", i, term), nontrivial=ran_any and kept_any)
         for flag, name in ((dropped_any, "dropped_children"), (readded_any, "readded_children")):
@@ -242,6 +260,24 @@ def correspondence_plan(ctx):
                 ctx.count("plan_histories_with_" + name)
     bad = common.run_cases(ctx, "plan", HEADER, checks, chunk=10)
     ctx.traces_validated += len(checks) - len(bad)
+    # the theorem's hypothesis evaluated: when the model's final state is finished, the real
+    # incremental result must have the attached and SUCCEEDED sets of the real build from scratch
+    fins = common.eval_terms(ctx, "planfin", HEADER, fin_terms)
+    for i, val in enumerate(fins):
+        same, diff = fin_meta[i]
+        if i in bad or val not in ("true", "false"):
+            ctx.count("plan_final_state_unknown")
+            continue
+        ctx.count("plan_final_state_finished" if val == "true" else "plan_final_state_not_finished")
+        if val == "false":
+            ctx.count("plan_not_finished_and_real_differs" if not same else "plan_not_finished_but_real_equal")
+        elif not same:
+            project, history, term = meta[i]
+            ctx.add_failure("correspondence", "E3:EnginePlan:finished", "E3:EnginePlan:finished-state-but-real-result-differs-from-scratch",
+                            "the model's final state satisfies the defining equations (finished_pb), so by "
+                            "C01_plan_checked_history_equals_scratch the result equals a build from scratch, but the "
+                            f"real incremental and from-scratch builds differ in (attached, SUCCEEDED): {diff}",
+                            witness={"case": co.case_json(project, history), "model_term": fin_terms[i]})
     for b in bad[:3]:
         project, history, term = meta[b]
         t2 = term.split(" && check_scratch_p")[0].replace("wf_u U && ustat_later_b U && check_hist_p", "trace_hist_p")
